@@ -666,18 +666,38 @@ var KeyOrder func(k interface{}) (string, bool)
 func SortedKeys(m interface{}) []interface{} {
 	v := reflect.ValueOf(m)
 	keys := v.MapKeys()
+	if len(keys) > 0 && (keys[0].Kind() == reflect.Interface || keys[0].Kind() == reflect.Ptr) {
+		// keys without an order of their own: the harness names them. Each key
+		// is named once, before the sort (naming may run instrumented code:
+		// the number of calls must not depend on the order the map gave)
+		type named struct {
+			k    reflect.Value
+			name string
+		}
+		ns := make([]named, len(keys))
+		all := KeyOrder != nil
+		for i, k := range keys {
+			ns[i].k = k
+			if all && k.CanInterface() {
+				name, ok := KeyOrder(k.Interface())
+				ns[i].name = name
+				all = all && ok
+			} else {
+				all = false
+			}
+		}
+		if all {
+			sort.SliceStable(ns, func(i, j int) bool { return ns[i].name < ns[j].name })
+		}
+		out := make([]interface{}, len(ns))
+		for i, n := range ns {
+			out[i] = n.k.Interface()
+		}
+		return out
+	}
 	sort.Slice(keys, func(i, j int) bool {
 		a, b := keys[i], keys[j]
 		switch a.Kind() {
-		case reflect.Interface, reflect.Ptr:
-			if KeyOrder != nil && a.CanInterface() && b.CanInterface() {
-				x, okx := KeyOrder(a.Interface())
-				y, oky := KeyOrder(b.Interface())
-				if okx && oky {
-					return x < y
-				}
-			}
-			return false
 		case reflect.String:
 			return a.String() < b.String()
 		case reflect.Int, reflect.Int8, reflect.Int16, reflect.Int32, reflect.Int64:
